@@ -132,9 +132,24 @@ func init() {
 			nSeeds = len(W.Objs)
 			return nil
 		},
-		Cases: func(c *mon.Ctx) int { return nSeeds + c.Pick(20000, 400000) },
+		Cases: func(c *mon.Ctx) int { return nSeeds + c.Pick(20000, 400000) + c07Directed(c) },
 		RunCase: func(c *mon.Ctx, i int) {
-			o, desc, isSeed := unionCase(c, i, &c07Mut)
+			var o *mon.Obj
+			var desc string
+			var isSeed bool
+			if nU := nSeeds + c.Pick(20000, 400000); i >= nU {
+				// directed families: the small ones completely, a hashed sample of the big ones
+				k := directedPick(c, i-nU)
+				if k < 0 {
+					return
+				}
+				o, desc = directedCase(c, k)
+				if o != nil {
+					c.R.Count("directed_objects", 1)
+				}
+			} else {
+				o, desc, isSeed = unionCase(c, i, &c07Mut)
+			}
 			if o == nil {
 				return
 			}
@@ -415,4 +430,8 @@ func c07Configured(c *mon.Ctx) {
 		}
 	}
 	g.SetConfiguration(lint.NewEmptyConfig())
+}
+
+func c07Directed(c *mon.Ctx) int {
+	return directedSmallTail(c) + (directedCount(c)-directedSmallTail(c))/c.Pick(40, 4)
 }
